@@ -36,7 +36,8 @@ LEVEL = "fault_enumeration"
 def exec_hostile(job):
     from .. import sim, vsock
     import struct
-    cfg, chunks, label, wexp = job
+    cfg, chunks, label, wexp = job[:4]
+    strict = len(job) > 4 and bool(job[4])       # the input holds no write request at all: nothing may change
     dev = sim.Device(cfg)
     mem0 = [[[1, 0], [2, 0], [3, 0]], [[4, 0, 0, 0]]]
     dev.set_mem(mem0)
@@ -61,7 +62,7 @@ def exec_hostile(job):
         others = [e["a"] for e in ev2] == ["recv", "proc", "send", "proc", "send", "eof", "close", "conns-left"] and dev.get_mem() == after
     nbytes = sum(len(c) for c in chunks)
     return {"ev": ev, "before": mem0, "after": after, "others": others, "finished": finished and wall < 2.0 + 0.01 * nbytes,
-            "wexp": wexp,
+            "wexp": wexp, "strict": strict,
             "label": label, "chunks": [list(bytearray(c)) for c in chunks], "wall": round(wall, 3)}
 
 
@@ -315,7 +316,7 @@ def main(ctx):
         ctx.machinery.append("plan emission incomplete %d/%d" % (len(plans), res.distinct))
         return
     cfg, register, read, wmsgs = cfgs[0]["cfg"], cfgs[0]["register"], cfgs[0]["read"], cfgs[0]["wmsgs"]
-    ev.rule = ("cases: mutation plans (6 base frames x up to 36 named parts x 10 operators, on the frame and on the re-framed message) x 3 session points, "
+    ev.rule = ("cases: mutation plans (6 base frames x up to 37 named parts x 10 operators, on the frame, on the re-framed message and on one member of a re-framed bundle) x 3 session points, "
                "the same plans / truncations / oversized copies / random mixes as datagrams between well-formed datagrams (UDP service), plus seeded random "
                "octet strings (0..600 octets) and random splices / bit flips of valid frames.  Non-trivial: the mutated octets "
                "differ from the valid frame in a length, count, offset, size or type field (every plan), or random input "
@@ -327,9 +328,9 @@ def main(ctx):
     jobs = []
     for p in plans:
         lab = "%s/%s/%s" % (p["base"], p["part"], p["op"])
-        jobs.append((cfg, [p["b"]], lab + "/alone", [p["wexp"]] if p["intact"] else []))
-        jobs.append((cfg, [register, p["b"]], lab + "/after-register", [p["wexp"]] if p["intact"] else []))
-        jobs.append((cfg, [list(p["b"]) + list(read)], lab + "/then-read", [p["wexp"]] if p["intact"] else []))
+        jobs.append((cfg, [p["b"]], lab + "/alone", [p["wexp"]] if p["intact"] else [], p.get("strict")))
+        jobs.append((cfg, [register, p["b"]], lab + "/after-register", [p["wexp"]] if p["intact"] else [], p.get("strict")))
+        jobs.append((cfg, [list(p["b"]) + list(read)], lab + "/then-read", [p["wexp"]] if p["intact"] else [], p.get("strict")))
     valid = {p["base"]: p["valid"] for p in plans}
     nrand = 400 if ctx.quick else 6000
     for n in range(nrand):
@@ -358,7 +359,7 @@ def main(ctx):
     fd, path = tempfile.mkstemp(prefix="hostile_", suffix=".ndjson")
     with os.fdopen(fd, "w") as f:
         for ln in lines:
-            f.write(json.dumps(dict({k: ln[k] for k in ("ev", "before", "after", "others", "finished", "wexp")}, octets=[o for c in ln["chunks"] for o in c]), separators=(",", ":")) + "\n")
+            f.write(json.dumps(dict({k: ln[k] for k in ("ev", "before", "after", "others", "finished", "wexp", "strict")}, octets=[o for c in ln["chunks"] for o in c]), separators=(",", ":")) + "\n")
     try:
         r3 = tlc.run("HostileTrace", "HostileTrace.cfg", env={"TRACE_FILE": path}, timeout=2400)
     finally:
